@@ -135,6 +135,10 @@ class PathCtx:
         if f is False:
             raise PathEnd("assumed false")
         f = to_z3_bool(f)
+        if z3.is_and(f):
+            for c in f.children():
+                self.assume(c)
+            return
         self.pc.append(f)
         if not _has_quantifier(f):
             self._solver.add(f)
@@ -464,7 +468,7 @@ class Interp:
             return (z3.Int(name + ".0"), z3.Int(name + ".1"))
         if t is T.IntDict:
             d = SDict.fresh(name)
-            ctx.assume(d.wf())
+            ctx.assume(d.n >= 0)  # order/domain consistency (d.wf()) is stated by the invariants that need it
             return DictCell(d)
         if t is T.PairList:
             l = SPairList.fresh(name)
@@ -1200,6 +1204,8 @@ class Interp:
         if isinstance(obj, QueueCell):
             if name == "append":
                 obj.appended.append(args[0])
+                x = args[0]
+                self.ctx.event("pdu", pdu=x.f["pdu"] if isinstance(x, SObj) and "pdu" in x.f else x)
                 return None
             if name == "clear":
                 obj.base_len = z3.IntVal(0)
